@@ -31,7 +31,10 @@ def _work(args):
     t0 = time.time()
     try:
         if kind == 'explore':
-            rec = symx.explore(_MOD.body, case, reset=getattr(_MOD, 'reset', None), **opts)
+            o = dict(opts)
+            if hasattr(_MOD, 'ctx_class'):
+                o['ctx_cls'] = _MOD.ctx_class(case)
+            rec = symx.explore(_MOD.body, case, reset=getattr(_MOD, 'reset', None), **o)
         else:
             # direct solver job (no path exploration): module function returns a record
             rec = getattr(_MOD, kind)(case)
